@@ -91,52 +91,56 @@ Proof. intros H. apply token_ok_parts in H. tauto. Qed.
 Lemma blank_plain b : is_blank b = true -> plain b = true.
 Proof. destruct b; simpl; intros H; try discriminate; reflexivity. Qed.
 
-Lemma rowtail_plain' sep toks : forallb is_blank sep = true -> forallb token_ok toks = true ->
-  forallb plain (rowtail sep toks) = true.
+Lemma sep_plain sep : sep_ok sep = true -> forallb plain sep = true.
+Proof. intros H. destruct (sep_ok_parts sep H) as (_ & Hb & _). exact (forallb_impl is_blank plain sep blank_plain Hb). Qed.
+
+Lemma rowtail_plain' toks : forallb tok_ok toks = true -> forallb plain (rowtail toks) = true.
 Proof.
-  intros Hs. induction toks as [|t ts IH]; [reflexivity|]. simpl. intros H.
-  apply andb_true_iff in H. destruct H as [H1 H2].
-  rewrite !forallb_app, (token_plain t H1), (IH H2), (forallb_impl is_blank plain sep blank_plain Hs). reflexivity.
+  induction toks as [|[sep t] ts IH]; [reflexivity|]. cbn [forallb]. intros H.
+  apply andb_true_iff in H. destruct H as [H1 H2]. unfold tok_ok in H1. cbn [fst snd] in H1.
+  apply andb_true_iff in H1. destruct H1 as [Hs Ht].
+  rewrite rowtail_cons, !forallb_app, (token_plain t Ht), (IH H2), (sep_plain sep Hs). reflexivity.
 Qed.
 
-Lemma good_row crlf sep k r T : sep_ok sep = true -> row_ok k r = true -> good_lines T ->
-  good_lines (print_row (eol_of crlf) sep r ++ T).
+Lemma good_row crlf k r T : row_ok k r = true -> good_lines T ->
+  good_lines (print_row (eol_of crlf) r ++ T).
 Proof.
-  unfold row_ok. intros Hsep H HT. apply andb_true_iff in H. destruct H as [H Htail].
+  unfold row_ok. intros H HT. apply andb_true_iff in H. destruct H as [H Htail].
   apply andb_true_iff in H. destruct H as [H Htoks].
   apply andb_true_iff in H. destruct H as [Hlab _].
-  destruct (sep_ok_parts sep Hsep) as (_ & Hbl & _).
   destruct (tail_ok_parts (pr_tail r) Htail) as (T1 & T2 & _).
   destruct (label_head_digit _ Hlab) as (d & t & E & Hd).
-  unfold print_row. fold (rowtail sep (pr_toks r)). rewrite E.
+  unfold print_row. fold (rowtail (pr_toks r)). rewrite E.
   rewrite <- !app_assoc. rewrite (app_assoc (d :: t)). rewrite (app_assoc ((d :: t) ++ _)).
   destruct (digit_facts d Hd) as (_ & _ & _ & _ & Hs & _).
-  assert (P : forallb plain ((d :: t) ++ rowtail sep (pr_toks r)) = true).
-  { rewrite forallb_app, <- E, (label_plain _ Hlab), (rowtail_plain' sep _ Hbl Htoks). reflexivity. }
+  assert (P : forallb plain ((d :: t) ++ rowtail (pr_toks r)) = true).
+  { rewrite forallb_app, <- E, (label_plain _ Hlab), (rowtail_plain' _ Htoks). reflexivity. }
   destruct (plain_text _ P) as [P1 P2].
-  apply (good_line crlf d ((t ++ rowtail sep (pr_toks r)) ++ pr_tail r) T); [exact Hs| | |exact HT].
-  - change (d :: (t ++ rowtail sep (pr_toks r)) ++ pr_tail r) with (((d :: t) ++ rowtail sep (pr_toks r)) ++ pr_tail r).
+  apply (good_line crlf d ((t ++ rowtail (pr_toks r)) ++ pr_tail r) T); [exact Hs| | |exact HT].
+  - change (d :: (t ++ rowtail (pr_toks r)) ++ pr_tail r) with (((d :: t) ++ rowtail (pr_toks r)) ++ pr_tail r).
     rewrite no_nl_app, P1, T1. reflexivity.
-  - change (d :: (t ++ rowtail sep (pr_toks r)) ++ pr_tail r) with (((d :: t) ++ rowtail sep (pr_toks r)) ++ pr_tail r).
+  - change (d :: (t ++ rowtail (pr_toks r)) ++ pr_tail r) with (((d :: t) ++ rowtail (pr_toks r)) ++ pr_tail r).
     apply utf8_valid_app; assumption.
 Qed.
 
-Lemma good_rows crlf sep k rows T : sep_ok sep = true -> forallb (row_ok k) rows = true -> good_lines T ->
-  good_lines (flat_map (print_row (eol_of crlf) sep) rows ++ T).
+Lemma good_rows crlf k rows T : forallb (row_ok k) rows = true -> good_lines T ->
+  good_lines (flat_map (print_row (eol_of crlf)) rows ++ T).
 Proof.
-  intros Hsep. induction rows as [|r rows IH]; intros H HT; [exact HT|].
+  induction rows as [|r rows IH]; intros H HT; [exact HT|].
   simpl in H. apply andb_true_iff in H. destruct H as [H1 H2].
-  cbn [flat_map]. rewrite <- app_assoc. apply (good_row crlf sep k); [exact Hsep|exact H1|apply IH; assumption].
+  cbn [flat_map]. rewrite <- app_assoc. apply (good_row crlf k); [exact H1|apply IH; assumption].
 Qed.
 
-Lemma sym_text_plain' al sep syms idx : forallb is_blank sep = true ->
-  sym_indices al syms = Some idx -> forallb plain (sym_text sep syms) = true.
+Lemma sym_text_plain' al syms idx : forallb (fun sc => sep_ok (fst sc)) syms = true ->
+  sym_indices al (sym_letters syms) = Some idx -> forallb plain (sym_text syms) = true.
 Proof.
-  intros Hs. revert idx. induction syms as [|c cs IH]; intros idx H; [reflexivity|].
-  simpl in H. destruct (sym_index al c) as [k|] eqn:Ek; [|discriminate].
-  destruct (sym_indices al cs) as [i'|]; [|discriminate].
-  unfold sym_text. cbn [flat_map]. fold (sym_text sep cs).
-  rewrite !forallb_app, (IH i' eq_refl), (forallb_impl is_blank plain sep blank_plain Hs).
+  revert idx. induction syms as [|[sep c] cs IH]; intros idx Hs H; [reflexivity|].
+  cbn [sym_letters map snd] in H. fold (sym_letters cs) in H. simpl in H.
+  destruct (sym_index al c) as [k|] eqn:Ek; [|discriminate].
+  destruct (sym_indices al (sym_letters cs)) as [i'|]; [|discriminate].
+  cbn [forallb fst] in Hs. apply andb_true_iff in Hs. destruct Hs as [Hs1 Hs2].
+  unfold sym_text. cbn [flat_map fst snd]. fold (sym_text cs).
+  rewrite !forallb_app, (IH i' Hs2 eq_refl), (sep_plain sep Hs1).
   cbn [forallb]. rewrite (sym_plain al c k Ek). reflexivity.
 Qed.
 
@@ -174,7 +178,7 @@ Qed.
 Lemma good_item al crlf it T : item_ok al it = true -> good_lines T ->
   good_lines (print_item (eol_of crlf) it ++ T).
 Proof.
-  intros Hok HT. destruct it as [num xref lines|k pad v|k v| |t ts|d m y c au|po sep syms rows]; cbn [print_item].
+  intros Hok HT. destruct it as [num xref lines|k pad v|k v| |t ts|d m y c au|po syms rows]; cbn [print_item].
   - cbn [item_ok] in Hok. apply andb_true_iff in Hok. destruct Hok as [Hok Hl].
     apply andb_true_iff in Hok. destruct Hok as [Hn Hx].
     assert (E : (["R"; "N"; " "; " "; "["] ++ num ++ ["]"] ++ print_xref xref ++ eol_of crlf ++
@@ -231,17 +235,16 @@ Proof.
     apply good_tagged; try reflexivity; try exact HT.
     + rewrite !no_nl_app, D1, M1, Y1, K1, Hn. reflexivity.
     + repeat (apply utf8_valid_app; [first [reflexivity|assumption]|]). reflexivity.
-  - destruct (item_ok_matrix al po sep syms rows Hok) as (c & cs & idx & r0 & rows' & -> & Ei & -> & Hsep & _ & Hrows).
-    destruct (sep_ok_parts sep Hsep) as (_ & Hbl & _).
-    fold (sym_text sep (c :: cs)). rewrite <- !app_assoc.
-    change (["P"; if po then "O" else "0"] ++ sym_text sep (c :: cs) ++ eol_of crlf ++
-            flat_map (print_row (eol_of crlf) sep) (r0 :: rows') ++ T)
-      with (("P" :: (if po then "O" else "0") :: sym_text sep (c :: cs)) ++ eol_of crlf ++
-            flat_map (print_row (eol_of crlf) sep) (r0 :: rows') ++ T).
-    assert (P : forallb plain ("P" :: (if po then "O" else "0") :: sym_text sep (c :: cs)) = true).
-    { cbn [forallb]. rewrite (sym_text_plain' al sep _ idx Hbl Ei). destruct po; reflexivity. }
+  - destruct (item_ok_matrix al po syms rows Hok) as (sep & c & cs & idx & r0 & rows' & -> & Ei & -> & Hseps & _ & Hrows).
+    fold (sym_text ((sep, c) :: cs)). rewrite <- !app_assoc.
+    change (["P"; if po then "O" else "0"] ++ sym_text ((sep, c) :: cs) ++ eol_of crlf ++
+            flat_map (print_row (eol_of crlf)) (r0 :: rows') ++ T)
+      with (("P" :: (if po then "O" else "0") :: sym_text ((sep, c) :: cs)) ++ eol_of crlf ++
+            flat_map (print_row (eol_of crlf)) (r0 :: rows') ++ T).
+    assert (P : forallb plain ("P" :: (if po then "O" else "0") :: sym_text ((sep, c) :: cs)) = true).
+    { cbn [forallb]. rewrite (sym_text_plain' al _ idx Hseps Ei). destruct po; reflexivity. }
     destruct (plain_text _ P) as [P1 P2]. apply good_line; [reflexivity|exact P1|exact P2|].
-    apply (good_rows crlf sep (length (c :: cs))); assumption.
+    apply (good_rows crlf (length ((sep, c) :: cs))); assumption.
 Qed.
 
 Lemma good_body al crlf (p : prec) : prec_ok al p = true -> good_lines (print_body (eol_of crlf) p).
@@ -518,7 +521,7 @@ End Records.
 Lemma starts_vv_body eol (p : prec) tl : starts_with ["V"; "V"] (print_body eol p ++ "/" :: "/" :: tl) = false.
 Proof.
   destruct p as [|it p]; [reflexivity|]. unfold print_body. cbn [flat_map]. rewrite <- app_assoc.
-  destruct it as [num xref lines|k pad v|k v| |t ts|d m y c au|po sep syms rows];
+  destruct it as [num xref lines|k pad v|k v| |t ts|d m y c au|po syms rows];
     cbn [print_item app xx_line flat_map]; try (destruct k); reflexivity.
 Qed.
 
